@@ -9,13 +9,17 @@ import pandas as pd
 
 REQ = ['From PL Require Import Core.Broadcast.']
 
-NAMES = ['a', 'b', 'c', 'd', 'e']          # level-name pool; model name = position in this list
+NAMES = ['a', 'b', 'c', 'd', 'e', '', 0, 1]  # level-name pool; model name = position in this list
+ODD_NAMES = ['', 0, 1]                     # valid pandas level names that are falsy / not strings (e.g. after set_index(0))
 POOLS = {                                  # key pool per level name (homogeneous per level, mixed across levels)
     'a': [1, 2, 3, 4],
     'b': ['p', 'q', 'r', 's'],
     'c': [10, 20, 30],
     'd': ['x', 'y', 'z'],
     'e': [7, 8, 9],
+    '': [1, 2, 3],
+    0: ['p', 'q', 'r'],
+    1: [10, 20, 30, 40],
     None: [0, 1, 2, 3, 5],
 }
 
@@ -27,16 +31,23 @@ class Operand:
     (None = unnamed), unique key tuples, column names (for 'F').  Payload of row i, column j is
     base + 8 i + j (all distinct, integer valued: exact in floats)."""
 
-    def __init__(self, kind, levels, keys, cols=None, base=1000, name=None):
+    def __init__(self, kind, levels, keys, cols=None, base=1000, name=None, mi1=False):
         self.kind, self.levels, self.keys = kind, list(levels), [tuple(k) for k in keys]
         self.cols = list(cols) if cols else (['v'] if kind == 'S' else ['u', 'w'])
         self.base, self.name = base, name
+        self.mi1 = bool(mi1) and len(self.levels) == 1   # index layout: the single level is held by a MultiIndex (from_arrays / from_frame)
+
+    def clone(self, keys=None, cols=None):
+        return Operand(self.kind, self.levels, self.keys if keys is None else keys, self.cols if cols is None else cols,
+                       self.base, self.name, self.mi1)
 
     def value(self, i, j):
         return float(self.base + 8 * i + j)
 
     def build(self):
-        if len(self.levels) == 1:
+        if len(self.levels) == 1 and self.mi1:
+            idx = pd.MultiIndex.from_arrays([[k[0] for k in self.keys]], names=self.levels)
+        elif len(self.levels) == 1:
             idx = pd.Index([k[0] for k in self.keys], name=self.levels[0])
         else:
             idx = pd.MultiIndex.from_tuples(self.keys, names=self.levels) if self.keys else \
@@ -60,12 +71,15 @@ class Operand:
         return i if all(vals[j] == self.value(i, j) for j in range(len(vals))) else -1
 
     def describe(self):
-        return {'kind': self.kind, 'levels': self.levels, 'keys': [list(k) for k in self.keys],
-                'cols': self.cols if self.kind == 'F' else None, 'base': self.base}
+        d = {'kind': self.kind, 'levels': self.levels, 'keys': [list(k) for k in self.keys],
+             'cols': self.cols if self.kind == 'F' else None, 'base': self.base}
+        if self.mi1:
+            d['mi1'] = True
+        return d
 
     @staticmethod
     def from_description(d):
-        return Operand(d['kind'], d['levels'], [tuple(k) for k in d['keys']], d.get('cols'), d.get('base', 1000))
+        return Operand(d['kind'], d['levels'], [tuple(k) for k in d['keys']], d.get('cols'), d.get('base', 1000), mi1=d.get('mi1', False))
 
 
 def total_levels(lo, lp):
@@ -288,11 +302,10 @@ def rows_lit(enc, rows):
 
 
 def case_term(O, P, ob):
-    """check_case term for a frame-to-frame case (None if the observation cannot be expressed, e.g. NaN key components)."""
+    """check_case_top term for a frame-to-frame case (None if the observation cannot be expressed, e.g. NaN key components)."""
     enc = Enc()
-    zero_level_obj = O.kind == 'S' and O.levels == [None]
-    lo = [] if zero_level_obj else O.levels
-    ko = [()] if zero_level_obj else O.keys
+    # the object is passed as it is (kind, level names, keys): which path it takes is decided by the model's dispatch
+    # [is_paramset] (check_case_top); the observation `ob` was canonicalised with the oracle's reading of the documented rule
     if ob.raised is not None:
         exp, lv = 'Raise', '[]'
     elif ob.unaligned:
@@ -303,7 +316,8 @@ def case_term(O, P, ob):
         if any(_isnan(c) for r in ob.rows for c in r[0]) or any(r[1] == -1 or r[2] == -1 for r in ob.rows):
             return None
         exp, lv = 'Rows ' + rows_lit(enc, ob.rows), names_lit(ob.levels)
-    return 'check_case %s %s %s %s %s (%s)' % (names_lit(lo), keys_lit(enc, ko), names_lit(P.levels), keys_lit(enc, P.keys), lv, exp)
+    return 'check_case_top %s %s %s %s %s %s (%s)' % ('KSeries' if O.kind == 'S' else 'KFrame', names_lit(O.levels), keys_lit(enc, O.keys),
+                                                      names_lit(P.levels), keys_lit(enc, P.keys), lv, exp)
 
 
 # ----------------------------------------------------------------------------------------- generators
@@ -318,8 +332,14 @@ def rand_keys(rng, levels, n, pools=POOLS):
 def gen_pair(rng, maxrows=6):
     """One (obj, prm) pair of pandas-typed operands with a random level layout."""
     kind = rng.choice(['equal', 'equal', 'disjoint', 'prm_in_obj', 'obj_in_prm', 'overlap', 'overlap', 'anon', 'paramset'])
-    names = NAMES[:]
+    names = NAMES[:5]
     rng.shuffle(names)
+    if rng.random() < 0.15:
+        # odd but valid level names ('' / 0 / 1: falsy, not strings) in any role: shared, private to obj, private to prm
+        odd = ODD_NAMES[:]
+        rng.shuffle(odd)
+        for n in odd[:rng.randint(1, 3)]:
+            names.insert(rng.randint(0, 3), n)
     ko = kp = None
     if kind == 'equal':
         k = rng.choice([1, 1, 2, 2, 3])
@@ -343,8 +363,11 @@ def gen_pair(rng, maxrows=6):
         rng.shuffle(lp)
     elif kind == 'anon':
         # unnamed levels on either side (never shared), possibly besides named ones
-        lo = rng.choice([[None], [None, names[0]], [names[0]], [names[0], None], [names[0], names[1]]])
-        lp = rng.choice([[None], [None, names[0]], [names[1]], [names[0], None], [None, names[2]]])
+        # ... including operands ALL of whose (several) levels are unnamed (MultiIndex.from_product / stack() without names)
+        lo = rng.choice([[None], [None, names[0]], [names[0]], [names[0], None], [names[0], names[1]],
+                         [None, None], [None, None], [None, None, None], [None, names[0], None]])
+        lp = rng.choice([[None], [None, names[0]], [names[1]], [names[0], None], [None, names[2]],
+                         [None, None], [None, None, names[0]]])
         if None not in lo and None not in lp:
             lp = [None] + lp[:1]
     else:   # parameter-set Series (single unnamed level) as object
@@ -384,7 +407,7 @@ def gen_pair(rng, maxrows=6):
             out = []
             for i, k in enumerate(ks):
                 it = iter(k)
-                out.append(tuple(POOLS[None][i % 5] if l is None else next(it) for l in levels))
+                out.append(tuple(POOLS[None][(i + 2 * j) % 5] if l is None else next(it) for j, l in enumerate(levels)))
             return out
         ko, kp = expand_anon(lo, no), expand_anon(lp, np_)
     else:
@@ -392,6 +415,10 @@ def gen_pair(rng, maxrows=6):
     ncol = rng.randint(1, 3)
     O = Operand(okind, lo, ko, cols=['u', 'w', 'x'][:ncol], base=1000)
     P = Operand(pkind, lp, kp, cols=['f', 'g', 'h'][:rng.randint(1, 2)], base=5000, name='prm')
+    # index layout: a single level held by a one-level MultiIndex (not for the parameter-set Series, whose keys are columns)
+    for X in (O, P):
+        if len(X.levels) == 1 and not (X is O and kind == 'paramset') and rng.random() < 0.08:
+            X.mi1 = True
     return O, P
 
 
@@ -455,3 +482,15 @@ def coincident_codes(O, P):
         return False
     co, cp = coded(O, P)
     return co == cp
+
+
+def one_level_multiindex(O, P):
+    """Class of the known finding C13/one-level-multiindex: the single index level of an operand is held by a MultiIndex."""
+    return bool(O.mi1 or P.mi1)
+
+
+def int_level_name(O, P):
+    """Class of the known finding C13/integer-level-name: some index level of an operand is named by an integer (e.g. 0 after
+    set_index(0) on a header-less table).  pandas addresses levels 'by number or by name' and takes an integer for a number
+    in several places (get_level_values on a one-level Index, join of a MultiIndex with a level named 0)."""
+    return any(isinstance(n, int) and not isinstance(n, bool) for n in list(O.levels) + list(P.levels))
